@@ -8,6 +8,7 @@ import (
 	"strings"
 	"sync"
 	"sync/atomic"
+	"time"
 
 	"github.com/bytedance/sonic"
 	"github.com/bytedance/sonic/ast"
@@ -158,6 +159,9 @@ func c16Node(variant int, doc string, path []interface{}) (ast.Node, error) {
 			return n, err
 		}
 		return n, n.LoadAll()
+	case 5:
+		// the lenient search (no ValidateJSON): what it locates may turn out to be malformed when it is parsed
+		return sonic.GetWithOptions([]byte(doc), ast.SearchOptions{ConcurrentRead: true}, path...)
 	default:
 		n, err := sonic.GetFromString(doc, path...)
 		if err != nil {
@@ -167,7 +171,7 @@ func c16Node(variant int, doc string, path []interface{}) (ast.Node, error) {
 	}
 }
 
-var c16Variants = []string{"NewRawConcurrentRead", "Searcher{ConcurrentRead}", "GetWithOptions(ConcurrentRead)", "LoadAll() returned", "Load() returned"}
+var c16Variants = []string{"NewRawConcurrentRead", "Searcher{ConcurrentRead}", "GetWithOptions(ConcurrentRead)", "LoadAll() returned", "Load() returned", "GetWithOptions(ConcurrentRead) value malformed at its first level"}
 
 func c16Doc(r *gen.Rng) string {
 	o := gen.DefaultDoc
@@ -209,6 +213,8 @@ func c16Doc(r *gen.Rng) string {
 	}
 }
 
+var c16Deadlocked bool
+
 func c16Case(c *Ctx, i int, r *gen.Rng) {
 	doc := c16Doc(r)
 	tree, ok := ref.Parse(doc)
@@ -216,7 +222,7 @@ func c16Case(c *Ctx, i int, r *gen.Rng) {
 		c.Note(i, "inconclusive: generator produced an invalid document", q(doc))
 		return
 	}
-	variant := r.Intn(len(c16Variants))
+	variant := r.Intn(5)
 	var base []interface{}
 	if r.Chance(1, 3) {
 		base = randomPath(r, tree)
@@ -224,6 +230,28 @@ func c16Case(c *Ctx, i int, r *gen.Rng) {
 	sub := tree.Lookup(base)
 	if sub == nil {
 		base, sub = nil, tree
+	}
+	if r.Chance(1, 6) && !c16Deadlocked && (sub.Kind == ref.Obj || sub.Kind == ref.Arr) && len(sub.Elems) >= 2 {
+		// a shared node whose text is malformed at its first level (a separator between two members is
+		// missing; brackets still match, so the lenient search locates it): the readers must all get
+		// the error the single-threaded run gets, and none of them may be left waiting
+		j := r.Intn(len(sub.Elems) - 1)
+		if k := strings.IndexByte(doc[sub.Elems[j].End:sub.End], ','); k >= 0 {
+			k += sub.Elems[j].End
+			text := doc[sub.Start:k] + " " + doc[k+1:sub.End]
+			if r.Chance(1, 2) {
+				// a long first member: the failing parse holds the node's lock for a while
+				filler := "[" + strings.Repeat("1,", r.Range(2000, 30000)) + "1]"
+				if sub.Kind == ref.Obj {
+					text = `{"filler":` + filler + "," + text[1:]
+				} else {
+					text = "[" + filler + "," + text[1:]
+				}
+			}
+			doc = `{"k":` + text + "}"
+			base = []interface{}{"k"}
+			variant = 5
+		}
 	}
 	// operations: paths relative to the shared node
 	var ops []*c16Op
@@ -242,6 +270,22 @@ func c16Case(c *Ctx, i int, r *gen.Rng) {
 			return
 		}
 		want[k] = c16Run(&n, op)
+	}
+	// A malformed node has two legitimate faces: its raw text as long as nobody has parsed it, and the
+	// syntax error afterwards; which one a read meets depends on what the other readers did before.
+	// Second oracle for those nodes: the same operation after the (failing) parse has happened.
+	var want2 []string
+	if variant == 5 {
+		want2 = make([]string, len(ops))
+		for k, op := range ops {
+			n, err := c16Node(variant, doc, base)
+			if err != nil {
+				return
+			}
+			n.Get("")
+			n.Index(0)
+			want2[k] = c16Run(&n, op)
+		}
 	}
 	shared, err := c16Node(variant, doc, base)
 	if err != nil {
@@ -298,7 +342,35 @@ func c16Case(c *Ctx, i int, r *gen.Rng) {
 		}(g)
 	}
 	close(start)
-	wg.Wait()
+	finished := make(chan struct{})
+	go func() { wg.Wait(); close(finished) }()
+	select {
+	case <-finished:
+	case <-time.After(60 * time.Second):
+		// Not a timing verdict: the readers' stacks decide. If every goroutine that is still inside
+		// the node's code is parked on the node's mutex, nobody can ever release it.
+		buf := make([]byte, 4<<20)
+		buf = buf[:runtime.Stack(buf, true)]
+		parked, running := 0, 0
+		for _, g := range strings.Split(string(buf), "\n\n") {
+			if !strings.Contains(g, "sonic/ast.(*Node)") || !strings.Contains(g, "main.c16Case") {
+				continue
+			}
+			if strings.Contains(g, "sync.(*RWMutex)") && (strings.Contains(g, "[sync.RWMutex") || strings.Contains(g, "semacquire") || strings.Contains(g, "[sync.Mutex")) {
+				parked++
+			} else {
+				running++
+			}
+		}
+		d := map[string]interface{}{"doc": q(doc), "base": pathStr(base), "goroutines": G, "readers_parked_on_the_node_mutex": parked, "readers_still_running": running, "stacks": trunc(string(buf), 5000)}
+		c16Deadlocked = true // one witness per process is enough: every further one costs the full wait
+		if parked > 0 && running == 0 {
+			c.Violate(i, "ast.Node/"+c16Variants[variant], "deadlock: concurrent readers are parked on the node's mutex and nobody holds it", d)
+		} else {
+			c.Note(i, "inconclusive: concurrent readers did not finish within 60 s but some are still running", d)
+		}
+		return
+	}
 	if observe {
 		c.Count("reads_that_overlapped_another_read_of_the_same_node", int64(overlapped))
 		if firstBeforeAnyDone >= 2 {
@@ -307,7 +379,9 @@ func c16Case(c *Ctx, i int, r *gen.Rng) {
 	}
 	for k, op := range ops {
 		for g := 0; g < G; g++ {
-			if got[g][k] != want[k] {
+			if got[g][k] != want[k] && !(want2 != nil && (got[g][k] == want2[k] || strings.Contains(got[g][k], "Syntax error"))) {
+				// (a malformed node: besides its two faces, a read that started on the raw text may
+				// report the node's syntax error once another reader's parse has failed)
 				x, y := diffAt(got[g][k], want[k])
 				c.Violate(i, "ast.Node/"+c16Variants[variant], "a concurrent read returned something else than the single-threaded run", map[string]interface{}{"doc": q(doc), "base": pathStr(base), "path": pathStr(op.path), "accessor": op.kind, "stepwise": op.step, "goroutines": G, "concurrent": x, "alone": y})
 				break
